@@ -699,6 +699,11 @@ void __tsan_write##N(void *a) { if (V.running) vs_plain(a, N, 1, 0); } \
 void __tsan_unaligned_read##N(void *a) { if (V.running) vs_plain(a, N, 0, 0); } \
 void __tsan_unaligned_write##N(void *a) { if (V.running) vs_plain(a, N, 1, 0); }
 VS_RW(1) VS_RW(2) VS_RW(4) VS_RW(8) VS_RW(16)
+/* the instrumented units are compiled with -Dmemset=vs_memset ...: a block operation the compiler leaves to libc is a plain
+ * access to every byte it touches, like any other */
+void *vs_memset(void *d, int c, size_t n) { if (V.running && n) vs_plain(d, n, 1, 0); return memset(d, c, n); }
+void *vs_memcpy(void *d, const void *s, size_t n) { if (V.running && n) { vs_plain(s, n, 0, 0); vs_plain(d, n, 1, 0); } return memcpy(d, s, n); }
+void *vs_memmove(void *d, const void *s, size_t n) { if (V.running && n) { vs_plain(s, n, 0, 0); vs_plain(d, n, 1, 0); } return memmove(d, s, n); }
 void __tsan_read_range(void *a, unsigned long n) { if (V.running) vs_plain(a, n, 0, 0); }
 void __tsan_write_range(void *a, unsigned long n) { if (V.running) vs_plain(a, n, 1, 0); }
 void __tsan_vptr_update(void **a, void *v) { (void)a; (void)v; }
